@@ -106,6 +106,7 @@ type scenario struct {
 	log      []logEntry
 	nstarted int
 	depth    int
+	current  *convRun // interleaved: the conversion whose goroutine holds the token
 }
 
 // convert runs conversion c on the shared serializer, on the calling goroutine
@@ -129,9 +130,12 @@ func (sc *scenario) convert(c *convRun) {
 			}
 		}
 	case "interleaved":
+		// the token is handed back by whichever conversion is running on this goroutine (sc.current) - which is the
+		// owner of this recorder unless the serializer delivered the call to the consumer of another conversion
 		c.rec.gate = func() {
-			c.yield <- false
-			<-c.grant
+			cur := sc.current
+			cur.yield <- false
+			<-cur.grant
 		}
 	}
 	sc.depth++
@@ -180,6 +184,7 @@ func (sc *scenario) run() {
 			if done[c.j] {
 				return
 			}
+			sc.current = c
 			c.grant <- struct{}{}
 			if <-c.yield {
 				done[c.j] = true
